@@ -140,6 +140,9 @@ C16_WhitenedCovIsPower ==
 \* C10: the named methods are CPCCA at their special alphas
 C10_NamedIsSpecialCase ==
     (Done /\ cfg.fam # "CPCCA") => Predict([cfg EXCEPT !.fam = "CPCCA", !.alpha = AlphaOf(cfg.fam, cfg.alpha)]) = pred
+\* C10: PCA pre-reduction that keeps all modes changes nothing
+C10_PcaAllIsNoPca ==
+    Done => Predict([cfg EXCEPT !.pca = "none", !.wide = FALSE]) = Predict([cfg EXCEPT !.pca = "all", !.wide = FALSE])
 \* C10/C09: for MCA the factor is one: sigma = sx * sy * c / (n-1)
 C09_McaFactorOne ==
     (Done /\ cfg.fam = "MCA") => \A i \in 1..pred.k : pred.sig75[i] = pred.sx[i] * pred.sy[i] * pred.c5[i]
